@@ -241,6 +241,31 @@ def main(tier):
         # the recorded witness of every false-guard run satisfies all constraints (raise-free by Inv_Inert)
         common.validate_traces(run, "TraceCore", g0traces, cfg="TraceCore_C01.cfg", label="false-guard runs: Sat", programs=progs, view=views.core, props=["C07"])
     if not run.violations:
+        # the block API (_if/_else/_while/_for) enters the same guard: bodies that update containers in place, divide inexactly or
+        # compare out-of-range values in the arm that is NOT taken must leave every variable as native control flow does (NativeCF.tla)
+        from checks import c09_check
+        cprogs = c09_check.cf_programs(tier, lambda nm: nm.startswith(("arr", "mat", "div", "nested", "seq", "iffor", "forif", "whileif")))
+        for p in cprogs:
+            p["id"] = "blk/" + p["id"]
+        ctr = common.run_programs(c09_check.CF_CFG, cprogs)
+        cruns = c09_check.cf_runs(cprogs, ctr)
+        run.evaluations += len(cruns)
+        for p in cprogs:
+            run.nontrivial.add(("block", p["meta"]["name"]))
+        cch = [cruns[i:i + 1500] for i in range(0, len(cruns), 1500)]
+        with ThreadPoolExecutor(8) as ex:
+            cres = list(ex.map(lambda ch: common._tlc_on_chunk("TraceCF", "TraceCF.cfg", {"runs": ch, "active": common.active_ids("C09")}, 2, False, False, "3g"), cch))
+        for ci, (ch, res) in enumerate(zip(cch, cres)):
+            run.add_tlc(res, "block-API bodies in dead arms vs native #%d" % ci)
+            run.traces += len(ch)
+            if res.violated:
+                r = ch[int(res.state["tid"]) - 1]
+                run.violation({"stage": "blocks", "invariant": res.violated, "tlc_state": res.state, "cfg": c09_check.CF_CFG, "run": r,
+                               "programs": [next(p for p in cprogs if p["id"] == r["id"])],
+                               "summary": "%s for %s inputs %s: block-API run %s %s final %s (a dead arm is not inert)" % (res.violated, r["id"], r["inputs"], r["out"], r["exc"], r["final"])})
+        if not run.violations:
+            common.validate_traces(run, "TraceCore", ctr, cfg="TraceCore_C01.cfg", label="block-API runs: Sat", programs=cprogs, view=views.core, props=["C07"])
+    if not run.violations:
         # selection with lazily evaluated branches: the selected value is unique although the untaken branch's wires are free
         lazy = lazy_programs(2)
         lcfg = {"P": 13, "bitlength": 2, "resolution": 1}   # the untaken branch's wires are all free: tiny field keeps the search finite
